@@ -20,7 +20,7 @@ table = '\n'.join(rows) + '\n\n%d of %d seeded changes are detected by the quick
 DESCR = {
  'C01': ('V', 'JsonValue universe x option vectors x json / ojson / wjson / wojson; Trace_C01 re-lexes every produced text with the JsonText PDA, requires ValueOf(text) = value, the option post-conditions (escapes, line length, indentation), and byte-identical re-serialisation'),
  'C02': ('G', 'JsonText: every viable prefix <= 6 chars over 27 classes, token sequences, deep nests, whole-member objects (duplicate keys at every position), extra tokens (surrogate-pair corners, low-byte trap characters) x {comments, trailing comma, depth limits} x decode-option modes (lossless_number, lossless_bignum off, nan/inf strings) x 5 char + 5 wchar_t entry points'),
- 'C03': ('G (differential)', 'the same texts x all 2^(n-1) chunk compositions x 2 push protocols, stream buffer sizes 1..n+1, cursors, read_to, staj iterators; binary: C07 byte spaces x 23 deliveries; CSV: every string <= 6 chars over 7 characters x 6 option sets x every delivery'),
+ 'C03': ('G (differential)', 'the same texts x all 2^(n-1) chunk compositions x 2 push protocols, stream buffer sizes 1..n+1, cursors, read_to, staj iterators; binary: C07 byte spaces x 23 deliveries, and documents with two items longer than the 16384-byte source chunk; CSV: every string <= 6 chars over 7 characters x 6 option sets x every delivery'),
  'C04': ('V', 'BigNat oracle; Trace_C04 validates bigint arithmetic via identities, conversions digit for digit, literal classes, round-half-even doubles, double print/parse round trips incl. every binary64 exponent x edge significands'),
  'C05': ('G + V', 'ApiOutcome protocol; inputs of all other generators + truncations / substitutions through every decoder / compiler entry point, a CBOR tag family (typed / multi-dimensional arrays, bignums, decimal fractions with boundary arguments), and values x option sets through 12 encoder entry points, under ASan+UBSan+LSan with a CPU-time watchdog (non-termination); sampled outcome traces validated by Trace_C05'),
  'C06': ('V', 'BinModel universe x 4 formats x routes; Trace_C06: the reference decoder reads the output completely to the documented image and the library reads it back; stringref family; long-length family (BinHeads: header forms at 2^8 / 2^15 / 2^16, Trace_C06big); string references next to typed arrays and encoder reuse after reset (Trace_C06pta); semantic-tag family (BinTags / Trace_C06tags: bignum, decimal fraction, bigfloat, epoch tags, base-N hints x 4 formats, documented image per format)'),
@@ -29,13 +29,13 @@ DESCR = {
  'C09': ('G per transition + V', 'Container: every edge reachable within MaxHist operations (VIEW + ACTION_CONSTRAINT) incl. erase by iterator / iterator range on arrays and objects, hinted overloads at every hint position, json and ojson; ValueLaws over 59 x 59 descriptors (compare is a total order consistent with ==, hash, swap)'),
  'C10': ('G', 'Limits: 20 opening paths x limits x depths around the limit; encoders fed by events and through dump / encode_X, also after closed siblings; UBJSON max_items; claimed lengths vs an allocation meter for json and typed decode, from a vector, an iterator range and a stream (header at offset 0 and ending at / next to a 16384-byte chunk boundary); deep values on a 1 MiB stack; sibling families'),
  'C11': ('G', 'JsonSchema validator (validated against the official suite and python-jsonschema on the whole space): grammar-built schemas per dialect incl. annotation scoping, dependency maps and exact decimals (fractional bounds, divisors, enum / const spellings) x steered instances; Uri (RFC 3986, validated on the RFC examples): base URI x nested $id x reference with the identifier addressed and near misses, JSON Pointer fragments with ~ escapes and percent-encoding'),
- 'C12': ('G', 'JsonPath evaluator (validated against the jsoncons jsonpath reference data): segments, slices, unions incl. current- and root-anchored path members, filters (and, where the functions family is in, built-in functions and arithmetic) x documents x notations x result options x 7 entry points'),
+ 'C12': ('G', 'JsonPath evaluator (validated against the jsoncons jsonpath reference data): segments, slices, unions incl. current- and root-anchored path members, filters (and, where the functions family is in, built-in functions and arithmetic) x documents x notations x result options x 7 entry points; a compiled expression is evaluated on another document first'),
  'C13': ('G', 'Jmespath evaluator (validated against the JMESPath compliance corpus): expression trees x documents, functions x typed argument tuples, slices, sort stability, exact decimals (abs / ceil / floor / avg / sum / sort / comparisons / to_number over fractions)'),
  'C14': ('G', 'JsonPointer: all pointer strings <= n over 7 chars; (doc, tokens, op, create_if_missing); flatten / unflatten'),
  'C15': ('G + model + V', 'JsonPatch: every op sequence <= MaxOps extended while it succeeds (failure at every position); MC_C15impl refinement of the undo-log loop; diff law'),
  'C16': ('G + V', 'MergePatch: all (target, patch) pairs of the depth-2 universe; from_diff traces validated by Trace_C16'),
  'C17': ('G', 'Reflect: 80 types (every traits macro flavour, std containers, tuple / pair / array / bitset / variant / optional / smart pointers / chrono, 64-bit and floating kinds) x values (4 formats, 3 routes) and x fault-derived documents (verdict predicted)'),
- 'C18': ('G + V', 'Csv (RFC 4180 + jsoncons options): options x tables; TOON: round-trip law over trees, strings / keys in every position, and primitives (null, booleans, integers, decimals) in every position'),
+ 'C18': ('G + V', 'Csv (RFC 4180 + jsoncons options): options x tables (written as objects / columns and as rows with the names first); TOON: round-trip law over trees, strings / keys in every position, and primitives (null, booleans, integers, decimals) in every position'),
  'C19': ('V', 'AllocLedger: fork per (scenario, n) over 38 scenarios (parse, copy, assign, insert, merge, erase, sort, dump, four binary formats, CSV, TOON, JSONPath query / replace, JMESPath, pointer, patch, merge patch, diffs, schema, cursor, typed encode / decode, stateful allocators): the n-th allocation fails; Trace_C19 requires ledger balance, no double free, size-matched deallocation, strong / basic guarantee per scenario'),
  'C20': ('model + V', 'SharedReaders model-checked; TSan harness with TLC-generated thread / stream / skew assignments over built-in operations, a curated artefact pool (every format, every JSONPath / JMESPath built-in, all drafts) and a pool sampled from the C11 / C12 cases; Trace_C20'),
 }
